@@ -1403,8 +1403,12 @@ class XMLSchemaBase(XsdValidator, ElementPathMixin[Union[SchemaType, XsdElement]
             -> Iterator[XMLSchemaValidationError]:
         # Check still enabled key references (lazy validation cases): with a fully
         # loaded document they are checked when the root element ends, before IDREFs
-        for identity, counter in context.identities.items():
+        for identity, counter in list(context.identities.items()):
             if counter.enabled and isinstance(identity, XsdKeyref):
+                refer = cast(KeyrefCounter, counter).refer
+                if refer is not None and refer not in context.identities:
+                    # No element that declares the referred constraint has been met
+                    context.identities[refer] = refer.get_counter(context.source.root)
                 for error in cast(KeyrefCounter, counter).iter_errors(context.identities):
                     yield context.validation_error(validation, self, error, context.source.root)
 
